@@ -18,6 +18,8 @@ var constSpecs = []constSpec{
 	{"commonRDBVersion", "redis-shake/common/common.go", "RDBVersion", false},
 }
 
+func init() { register(genAll) }
+
 func genAll() {
 	var b strings.Builder
 	b.WriteString(header)
@@ -31,5 +33,4 @@ func genAll() {
 	}
 	b.WriteString("\nend RSVerif.Generated\n")
 	writeIfChanged("Consts.lean", b.String())
-	genMore()
 }
